@@ -59,6 +59,8 @@ class World:
         self.cv.notify_all()
 
     def _progress(self) -> None:
+        if self.aborted:
+            return  # the verdict (deadlock / error) has been recorded; ranks are only unwinding
         while True:
             opened = False
             for key, g in list(self.gates.items()):
